@@ -8,6 +8,7 @@ import (
 	"fmt"
 	"os"
 	"path/filepath"
+	"sync"
 
 	"github.com/douban/gobeansdb/store"
 	"verif/model"
@@ -38,10 +39,103 @@ func vfC07(env *vfc.Env) {
 		}
 		r := rnd.Split(uint64(h))
 		cfg := vfC05Config(r)
-		keys := vfTagSafeKeys(r, r.Range(3, 7), cfg)
+		stage := r.Intn(4)
+		if stage >= 2 { // an earlier file is a destination only while it is smaller than the file limit minus body_max
+			cfg.DataFileMax, cfg.BodyMax = int64(r.Pick(12, 16, 24))*256, int64(r.Pick(300, 512))
+		}
+		nkeys := r.Range(3, 7)
+		if stage >= 2 {
+			nkeys = r.Range(8, 14) // more live data than fits into the room of the earlier file
+		}
+		keys := vfTagSafeKeys(r, nkeys, cfg)
 		maxVal := vfC05MaxVal(cfg)
 		o := model.GenOpts{NOps: r.Range(25, 60), MaxVal: maxVal, Maint: true, MaintPct: 18, NoIncr: r.Bool()}
+		if stage == 2 {
+			o.NOps = r.Range(150, 250) // enough records for a handful of files above the compacted low end
+		}
 		ops := model.GenHistory(r, keys, o)
+		if stage == 3 {
+			// directed layout: cold keys and first versions of the hot keys in the first file(s),
+			// then one round that rewrites every hot key (those records are all live and fill
+			// whole files), then a few fillers that move the head on. Compacting the low end
+			// leaves a small first file; the pass above it appends there until it is full and
+			// then switches its destination onto the source it is reading.
+			ops = nil
+			pool := map[string]bool{}
+			var all []string
+			for len(all) < 40 {
+				for _, k := range vfTagSafeKeys(r, 8, cfg) {
+					if !pool[k] && len(k) < 60 {
+						pool[k] = true
+						all = append(all, k)
+					}
+				}
+			}
+			keys = nil
+			next := 0
+			set := func(k string, lo, hi int) int64 {
+				n := r.Range(lo, hi)
+				ops = append(ops, model.Op{K: "set", Key: k, Val: &ref.ValueSpec{Class: "random", Size: n, Seed: r.Uint64()}, Flag: uint32(r.Intn(1000))})
+				return int64((24+len(k)+n+255)/256) * 256
+			}
+			// cold records fill the first file up to just below the "has room" limit
+			var coldBytes int64
+			for coldBytes < cfg.DataFileMax-cfg.BodyMax-int64(r.Pick(512, 768, 1024)) && next < 20 {
+				coldBytes += set(all[next], 20, 200)
+				keys = append(keys, all[next])
+				next++
+			}
+			// first versions of a few hot keys fill the rest of the first file (superseded below)
+			var hot []string
+			var fill int64
+			for fill < cfg.DataFileMax-coldBytes && next < len(all) {
+				fill += set(all[next], 150, maxVal)
+				hot = append(hot, all[next])
+				keys = append(keys, all[next])
+				next++
+			}
+			// the live round: every hot key (the ones above again, and new ones), a little more than a data file
+			var roundBytes int64
+			for _, k := range hot {
+				roundBytes += set(k, 150, maxVal)
+			}
+			for roundBytes < cfg.DataFileMax*int64(r.Pick(10, 12, 15))/10 && next < len(all) {
+				roundBytes += set(all[next], 150, maxVal)
+				hot = append(hot, all[next])
+				keys = append(keys, all[next])
+				next++
+			}
+			if r.Bool() {
+				ops = append(ops, model.Op{K: "del", Key: hot[r.Intn(len(hot))]})
+			}
+			for i := r.Range(1, len(hot)/2+1); i > 0; i-- { // third versions of some: move the head on
+				set(hot[r.Intn(len(hot))], 150, maxVal)
+			}
+		}
+		if stage == 2 {
+			// cold keys: written early (and a few in the middle) and never again, so that the
+			// low files keep some live records when they are compacted (a small earlier file)
+			cold := vfTagSafeKeys(r, r.Range(3, 6), cfg)
+			var pre []model.Op
+			for i, k := range cold {
+				dup := false
+				for _, k2 := range keys {
+					dup = dup || k2 == k
+				}
+				if dup {
+					continue
+				}
+				op := model.Op{K: "set", Key: k, Val: &ref.ValueSpec{Class: "random", Size: r.Range(20, 200), Seed: r.Uint64()}, Flag: uint32(r.Intn(1000))}
+				if i%2 == 0 {
+					pre = append(pre, op)
+				} else {
+					at := r.Intn(len(ops)/2 + 1)
+					ops = append(ops[:at], append([]model.Op{op}, ops[at:]...)...)
+				}
+				keys = append(keys, k)
+			}
+			ops = append(pre, ops...)
+		}
 		ops = append(ops, model.Op{K: "flush"}, model.Op{K: "restart", Rm: []string{"", "all", "hash"}[r.Intn(3)]})
 		c := &vfHistCase{Cfg: cfg, Keys: keys, Ops: ops}
 		res.Begin(id, c)
@@ -58,10 +152,24 @@ func vfC07(env *vfc.Env) {
 			sut.Destroy()
 			continue
 		}
-		// optionally an earlier pass first (keys already moved by a previous GC, gaps)
-		if r.Intn(3) == 0 {
+		// optionally an earlier pass first (keys already moved by a previous GC, gaps).
+		// stage 2 compacts the low end first, which leaves a small first file: the
+		// crash pass above it then appends to that earlier file and, when it fills
+		// up in the middle of a source, switches its destination onto the source
+		switch stage {
+		case 1:
 			run.Step(model.Op{K: "gc", Sel: r.Uint64() % 1000, Merge: r.Bool()})
 			run.Step(model.Op{K: "flush"})
+		case 2, 3:
+			sel := r.Uint64() % 1000
+			if stage == 3 {
+				sel = 0 // the first low range: the first file alone
+			}
+			run.Step(model.Op{K: "gc", Sel: sel, Merge: r.Bool(), Pref: "low"})
+			run.Step(model.Op{K: "flush"})
+			if r.Bool() { // hint files of the later sources on disk, as after a restart
+				run.Step(model.Op{K: "restart", Rm: []string{"", "hash"}[r.Intn(2)]})
+			}
 		}
 		ranges := store.VFLegalRanges(sut.hs, 0)
 		if len(ranges) == 0 || run.Failed() {
@@ -69,7 +177,46 @@ func vfC07(env *vfc.Env) {
 			sut.Destroy()
 			continue
 		}
+		if stage >= 2 {
+			res.Event(fmt.Sprintf("layout_stage%d_cases", stage), 1)
+			if os.Getenv("VERIF_TRACE_C07") != "" {
+				fmt.Fprintf(os.Stderr, "TRACE %s stage2 max=%d bodymax=%d chunks: %s ranges %v\n", id, cfg.DataFileMax, cfg.BodyMax, store.VFDescribeChunks(sut.hs, 0), ranges)
+			}
+			// prefer ranges that have a non-empty, non-full file below them
+			_, chunks := store.VFChunks(sut.hs, 0)
+			var pref [][4]int
+			for _, x := range ranges {
+				// the destination is the nearest non-empty file below the range, if it is not full
+				near := -1
+				for i, ch := range chunks {
+					if ch.ID < x[0] && ch.Size > 0 {
+						near = i
+					}
+				}
+				if near >= 0 && int64(chunks[near].Size) < cfg.DataFileMax-cfg.BodyMax {
+					pref = append(pref, x)
+				}
+			}
+			if len(pref) > 0 {
+				ranges = pref
+				res.Event("staged_earlier_destination_available", 1)
+			}
+		}
 		rg := ranges[r.Intn(len(ranges))]
+		if stage == 3 { // the file right above the small one, and a random end
+			for _, x := range ranges {
+				if x[0] < rg[0] {
+					rg = x
+				}
+			}
+			var same [][4]int
+			for _, x := range ranges {
+				if x[0] == rg[0] {
+					same = append(same, x)
+				}
+			}
+			rg = same[r.Intn(len(same))]
+		}
 		merge := r.Bool()
 		// M0: what every key reads before the pass
 		expected := map[string]*ref.Entry{}
@@ -84,7 +231,14 @@ func vfC07(env *vfc.Env) {
 		snapper := &vfSnapper{home: func() string { return sut.home }, out: filepath.Join(base, "snaps"), max: a.MaxSnaps, r: r.Split(99), active: true}
 		os.MkdirAll(snapper.out, 0755)
 		hooks.SetFS(snapper.fsHook)
+		dstSeen := map[[2]int64]bool{}
+		var dstMu sync.Mutex
 		hooks.SetPoint(func(name string, x, y int64, s string) {
+			if name == "gc.fileBegin" || name == "gc.beforeClear" {
+				dstMu.Lock()
+				dstSeen[[2]int64{x, y}] = true
+				dstMu.Unlock()
+			}
 			if name == "gc.append.done" {
 				snapper.mu.Lock()
 				snapper.take(fmt.Sprintf("gc-append chunk %d offset %d", x, y), "gc-append")
@@ -107,6 +261,22 @@ func vfC07(env *vfc.Env) {
 					dstKind = "earlier-file"
 				}
 			}
+		}
+		if dstKind == "earlier-file" {
+			// did the destination move up into the range (onto a source) during the pass?
+			for sd := range dstSeen {
+				if sd[1] >= int64(rg[0]) {
+					dstKind = "earlier-file-then-switched-into-range"
+					if sd[0] == sd[1] {
+						dstKind = "earlier-file-then-switched-onto-source"
+						break
+					}
+				}
+			}
+		}
+		res.Event("gc_dst."+dstKind, 1)
+		if os.Getenv("VERIF_TRACE_C07") != "" {
+			fmt.Fprintf(os.Stderr, "TRACE %s stage=%d range %v merge=%v dst=%d kind=%s dstSeen=%v err=%v\n", id, stage, rg, merge, st.Dst, dstKind, dstSeen, st.Err)
 		}
 		info := map[string]interface{}{"case": c, "gc_range": []int{rg[0], rg[1]}, "merge": merge, "dst": st.Dst, "dst_kind": dstKind}
 		sut.Destroy()
